@@ -46,6 +46,9 @@ class Gen:
         if self.family == "script" and depth == 0:
             kinds_leaf = ["async"]
         kinds_comb = ["then", "and", "all", "map_effect", "map_event"]
+        if self.family == "legacy":
+            kinds_comb = ["and", "all"]
+            kinds_leaf = ["done", "event", "notify", "chain", "chain", "async", "async"]
         if leafy or (depth > 0 and r.random() < 0.45) or (self.family == "script" and depth == 0):
             k = r.choice(kinds_leaf)
         else:
@@ -88,7 +91,7 @@ class Gen:
     def leaf(self, handles, streams):
         r = self.r
         opts = ["req", "req"]
-        if handles:
+        if handles and self.family != "legacy":
             opts.append("joinh")
         if streams:
             opts.append("next")
@@ -110,6 +113,8 @@ class Gen:
             n -= 1
             k = r.choice(["emit", "notify", "req", "req", "loop", "spawn", "abort", "joinh",
                           "join", "select", "select", "yield", "open"])
+            if self.family == "legacy" and k in ("abort", "joinh"):
+                continue
             if k == "emit":
                 code.append({"op": "emit", "tag": self.tag(), "src": self.src()})
             elif k == "notify":
@@ -216,6 +221,9 @@ def collect_tags(x, acc):
 
 def make_case(rng, host, depth, family, nsteps, name, budget=8, p_bad=0.0):
     ids = Ids()
+    legacy = host == "core_legacy"
+    if legacy:
+        family, host = "legacy", "core"
     g = Gen(rng, ids, max_depth=depth, family=family, script_budget=budget)
     direct = host in ("direct", "stream")
     progs = [g.cmd(0)]
@@ -226,7 +234,7 @@ def make_case(rng, host, depth, family, nsteps, name, budget=8, p_bad=0.0):
         tags = []
         collect_tags(progs, tags)
         # follow-up programs: small, and their own events have no follow-ups (acyclic)
-        g2 = Gen(rng, ids, max_depth=1, family="cmd", script_budget=3)
+        g2 = Gen(rng, ids, max_depth=1, family="legacy" if legacy else "cmd", script_budget=3)
         g2.tagc = 1000
         for t in rng.sample(tags, min(len(tags), rng.choice([0, 1, 2, 3]))):
             progs.append(g2.cmd(1))
@@ -238,7 +246,7 @@ def make_case(rng, host, depth, family, nsteps, name, budget=8, p_bad=0.0):
            "p_noop": 0.0 if direct else 0.15,
            "p_run": 0.0 if direct else 0.1,
            "p_bad": p_bad if host.startswith("bridge") else 0.0}
-    return {"name": name, "host": host, "progs": progs, "follow": follow,
+    return {"name": name, "host": host, "progs": progs, "follow": follow, "legacy": legacy,
             "steps": [{"a": "run", "p": 0}], "policy": pol}
 
 
